@@ -3,7 +3,7 @@ library (never /repo), runs `./check C07 quick` with VERIF_REPO pointing at it a
 M* must give exit 1 with a concrete replay, D* exit 1 with no-failing-input-found (behaviour change the property allows but
 the model does not describe), H* exit 0.   usage: python harness/c07_selftest.py [names...]"""
 import os, shutil, subprocess, sys
-SRC = os.environ.get("C07_SELFTEST_SRC", "/root/work/repo_fixed")
+SRC = os.environ.get("C07_SELFTEST_SRC", "/repo")
 DST = os.environ.get("C07_SELFTEST_DST", "/root/scratch/C07_mut/repo")
 CHECK_DIR = os.path.dirname(os.path.dirname(os.path.abspath(__file__)))
 VO="libsigopt/compute/vectorized_optimizers.py"; OP="libsigopt/compute/optimization.py"; DM="libsigopt/compute/domain.py"; AFO="libsigopt/compute/acquisition_function_optimization.py"
